@@ -176,8 +176,9 @@ class AttrGen:
                 row["parameters"] = s
         elif r < 0.68 and self.err_mode:
             row["parameters"] = invalid_params(rng, t)
-        elif r < 0.72:
-            row["parameters"] = rng.choice(["foo=bar", "x=1 y=2", "rows=3"])  # free-form on any type
+        elif r < 0.74 and (self.err_mode or t in ("integer", "decimal", "video", "file", "barcode", "date", "note", "acknowledge",
+                                                   "hidden", "calculate", "phone number", "start", "string", "int", "trigger")):
+            row["parameters"] = rng.choice(["foo=bar", "x=1 y=2", "rows=3"])  # free-form: only parsed on types without a block
         if rng.random() < 0.05:
             row["intent"] = "ex:ignored.on.questions"
         return row
